@@ -10,25 +10,34 @@ fn assume_some(x: Option<u64>) -> (r: Result<u64, StorageError>)
     ensures (r is Ok) == (x is Some), r is Ok ==> r->Ok_0 == x->Some_0
 { match x { Some(v) => Ok(v), None => Err(StorageError::Bug) } }
 
-spec fn ascending(s: Seq<MaxCut>) -> bool { forall|i: int, j: int| 0 <= i < j < s.len() ==> s[i].0 < s[j].0 }
+spec fn ascending(s: Seq<MaxCut>) -> bool { forall|i: int, j: int| 0 <= i < j < s.len() ==> (#[trigger] s[i]).0 < (#[trigger] s[j]).0 }
+spec fn in_range(s: Seq<MaxCut>, n: u64) -> bool { forall|i: int| 0 <= i < s.len() ==> 1 <= (#[trigger] s[i]).0 < n }
+spec fn below(s: Seq<MaxCut>, b: u64) -> bool { forall|i: int| 0 <= i < s.len() ==> (#[trigger] s[i]).0 < b }
 
 fn skip_target_boundaries(n: u64) -> (r: Result<Vec<MaxCut>, StorageError>)
     ensures r is Ok,
         ascending(r->Ok_0@),
-        forall|i: int| 0 <= i < r->Ok_0@.len() ==> 1 <= (#[trigger] r->Ok_0@[i]).0 < n,
+        in_range(r->Ok_0@, n),
         (r->Ok_0@.len() == 0) == (n < 2),
         r->Ok_0@.len() > 0 ==> r->Ok_0@[0].0 == n / 2,
 {
     let mut targets = Vec::new();
     let mut boundary = n / 2;
     while boundary > 0
+        invariant_except_break
+            below(targets@, boundary),
         invariant
-            boundary < n || (boundary == 0 && n < 2) ,
-            n >= 2 ==> boundary >= n / 2,
+            boundary < n || n < 2,
+            n < 2 ==> boundary == 0,
             ascending(targets@),
-            forall|i: int| 0 <= i < targets@.len() ==> 1 <= (#[trigger] targets@[i]).0 < boundary,
+            in_range(targets@, n),
             targets@.len() > 0 ==> targets@[0].0 == n / 2,
             targets@.len() == 0 ==> boundary == n / 2,
+        ensures
+            ascending(targets@),
+            in_range(targets@, n),
+            (targets@.len() == 0) == (n < 2),
+            targets@.len() > 0 ==> targets@[0].0 == n / 2,
         decreases n - boundary,
     {
         targets.push(MaxCut::new(boundary));
